@@ -105,7 +105,7 @@ theorem C03_tb_char_split (a b : Str) (ha : a ≠ []) (hb : b ≠ []) (l l1 l2 :
 /-- **C03, tree builder, congruence**: every token respects `SimS` (line numbers are irrelevant) -/
 theorem C03_tb_sim_step (tok : TokToken) (l l' : Nat) (s t : State) (hst : SimS s t) :
     SameOutcome (processToken tok l s) (processToken tok l' t) :=
-  processToken_rel inTableText_ok tok l l' s t hst
+  processToken_rel inTableText_ok flushText_ok tok l l' s t hst
 
 /-- `TreeBuilder::end` respects `SimS` -/
 theorem C03_tb_sim_end (s t : State) (hst : SimS s t) : SameOutcome (finishTB s) (finishTB t) :=
@@ -196,7 +196,7 @@ theorem runAlike_split (a b : Str) (l l1 l2 : Nat) (ha : a ≠ []) (hb : b ≠ [
 /-- **re-split token streams drive the tree builder alike** -/
 theorem C03_tree_resplit_run {ts1 ts2 : List (TokToken × Nat)} (h : Resplit ts1 ts2) : RunAlike ts1 ts2 := by
   induction h with
-  | lines hl => exact fun acc s t hst => processTokens_rel inTableText_ok _ _ hl acc s t hst
+  | lines hl => exact fun acc s t hst => processTokens_rel inTableText_ok flushText_ok _ _ hl acc s t hst
   | split a b l l1 l2 ha hb => exact runAlike_split a b l l1 l2 ha hb
   | symm _ ih => exact fun acc s t hst => (ih acc t s hst.symm).symm
   | trans _ _ ih1 ih2 => exact fun acc s t hst => (ih1 acc s s hst.left).trans (ih2 acc s t hst)
